@@ -64,7 +64,9 @@ CHECKS = {
                   "soundness/completeness, list induction) + vm_compute "
                   "correspondence + source-to-Coq translation of "
                   "handler_from_table, handler_from_default (precedence "
-                  "skeleton) with proved equality to the model"),
+                  "skeleton) with proved equality to the model + generated "
+                  "census of the inputs the dispatch code consults (policy "
+                  "theorem by vm_compute)"),
     "C03": dict(
         text="Theorems: for hook lists of any length the before hooks that "
              "run are exactly hooks 0..k in order (k = first stopping hook), "
@@ -115,7 +117,9 @@ CHECKS = {
         technique="Coq proof (computation lemmas over the shape dispatch) + "
                   "vm_compute correspondence + source-to-Coq translation of "
                   "make_response, to_response, the automatic-header part of "
-                  "__start_response__ with proved equality to the model"),
+                  "__start_response__ with proved equality to the model + "
+                  "generated census of the places that name a response "
+                  "header (policy theorem by vm_compute)"),
     "C17": dict(
         text="Theorems about the modelled footprint: the status-table merge "
              "of the diagnostic page writes no pre-existing dictionary object "
@@ -140,8 +144,9 @@ CHECKS = {
         technique="Coq proof (heap frame lemma, induction over schedules and "
                   "histories) + state census + differential runs + a "
                   "generated census of shared mutable objects, their writers "
-                  "and escapes (source-to-Coq translation, policy theorem by "
-                  "vm_compute)"),
+                  "and escapes, and of writes through self in the "
+                  "request-time methods of Application (source-to-Coq "
+                  "translation, policy theorems by vm_compute)"),
     "C18": dict(
         text="Theorems: parse_range(render_ranges units rs) = {units: rs} "
              "for every list of first-last / first- / -suffix items with "
@@ -289,7 +294,11 @@ CHECKS = {
              "differentially; strict_parsing=0; known finding "
              "multipart-raw-stream-reads-past-content-length.",
         technique="Coq proof (lia-based UTF-8 and percent codec round trips, "
-                  "list induction) + vm_compute correspondence"),
+                  "list induction) + vm_compute correspondence + "
+                  "source-to-Coq translation of the request-data containers "
+                  "and the constructor decisions with proved equality to "
+                  "the model + generated census of input read sites (policy "
+                  "theorem by vm_compute)"),
     "C11": dict(
         text="Theorems over the model of check_digest / check_credentials / "
              "check_response (Authorization tokenizer as a direct scanner, "
@@ -334,7 +343,11 @@ CHECKS = {
              "method tokens count as GET (framework rule); file bytes and "
              "Content-Length are monitored here and proved in C06.",
         technique="Coq proof (invariant over the normpath stack, case "
-                  "analysis of the decision) + vm_compute correspondence"),
+                  "analysis of the decision) + vm_compute correspondence + "
+                  "source-to-Coq translation of the static part of "
+                  "handler_from_table, the settings and the listing filter "
+                  "with proved equality to the model + generated census of "
+                  "the inputs of the gate and the settings"),
     "C13": dict(
         text="Theorems: the XOR masking is an involution for every key "
              "stream and text; write/load round trip under the codec laws "
@@ -436,7 +449,8 @@ CHECKS = {
         technique="Coq proof (computation/case analysis) + source-extracted "
                   "literals + vm_compute correspondence + source-to-Coq "
                   "translation of the debug-info gate in handler_from_table "
-                  "with proved equality to the model"),
+                  "with proved equality to the model + generated census of "
+                  "the places that consult an override key"),
 }
 
 NOT_YET = "check not built yet (work in progress, see DESIGN.md section 10)"
